@@ -498,9 +498,19 @@ def r_patterns(c):
             "exact broadcast subscript")
 
 
+def r_intclass(c):
+    """the raiser treats NumPy integers in shapes and bounds as integers: an
+    API-made reduction over an array of shape (np.int64(3), 4) is recognised, not
+    answered with NotImplementedError (shared with R16-INTCLASS)"""
+    from pta.rules.c16 import int_tests
+    int_tests(c, "R19-PATTERN", [R])
+    c.ok("R19-PATTERN", "raising", "integer-tests-on-bounds-use-INT_CLASSES",
+         "pytato/raising.py:1", nontrivial=False)
+
+
 SPEC = Spec(
     prop="C19",
-    rules=[r_arity, r_order, r_cascade, r_tables, r_producer, r_patterns],
+    rules=[r_arity, r_order, r_cascade, r_tables, r_producer, r_patterns, r_intclass],
     floors={"R19-ARITY": 9, "R19-ORDER": 5, "R19-CASCADE": 6, "R19-TABLES": 60,
             "R19-PRODUCER": 10, "R19-PATTERN": 12},
     explanation=(
